@@ -42,6 +42,50 @@ CLAIMS = {
         note=TB + "Python datetime/big integers are the oracle for civil dates and exact rounding; chrono's lenient date parsing (whitespace, digit counts) and float<->text are third-party/out of the model.",
         technique="Lean 4 proof (rounding law, precision bound) + differential correspondence of real parsers/formatters/casts with the model",
         design="5/C13"),
+    "C01": dict(
+        text=("Sem (lean/GlareModel/Core/Sem.lean) is a total, executable definition of SQL bag semantics for the modelled fragment (scan/values/filter/project/joins incl. outer, semi, anti/"
+              "aggregates incl. grouping sets/DISTINCT/UNION/ORDER BY/LIMIT/CASE/IN/3VL/subquery predicates, nested evaluation per outer row); Props/C01.lean proves the three-valued "
+              "logic laws on the whole truth domain. Tie: typed random queries (depth <= 4, nested derived tables so that operators compose arbitrarily) over random databases incl. empty, "
+              "NULL-heavy, duplicate-heavy and >512-group tables are executed by the real engine and by the compiled Lean evaluator; results must be equal as bags and respect ORDER BY keys."),
+        note=TB + "the property's right-hand side ('the rows SQL semantics prescribe') *is* Sem, so Sem is trusted as the definition; the theorem part is small (3VL laws), the deciding part is the "
+             "differential tie; engine rejections of valid SQL are counted, not violations; float arithmetic, window functions, lists/structs are outside the fragment.",
+        technique="executable Lean semantics (Sem) as oracle + differential correspondence with the engine; Lean proofs of 3VL laws",
+        design="5/C01", category="translation_validation"),
+    "C02": dict(
+        text=("Props/C02.lean proves the 3VL rewrite laws the passes rely on (conjunct splitting, AND/OR distribution) and that the absorption rewrite x OR (x AND y) -> x AND y performed by the pinned "
+              "commit is unsound (witness; known finding). Tie: every generated query - random ones plus shapes aimed at individual rules (filter on grouping columns above ROLLUP/CUBE, OR of conjunctions "
+              "spanning both join sides, filters on the nullable side of outer joins, LIMIT over UNION, pruned/duplicated projections, DISTINCT) - runs with enable_optimizer on and off; both must equal Sem."),
+        note=TB + "Sem is the reference for both plans; rule-level Lean models of the passes (DESIGN 5/C02 level 2-3) are not built yet.",
+        technique="Lean proofs of rewrite laws + differential optimizer-on / optimizer-off / Sem comparison",
+        design="5/C02", category="translation_validation"),
+    "C03": dict(
+        text=("Props/C03.lean: limitRun_spec - the model of PhysicalLimit::poll_execute outputs exactly (input.drop offset).take count for every batching of the input (induction over the batch list, "
+              "any batch sizes incl. empty batches and batches straddling offset/limit) and is therefore independent of batch boundaries. Tie: generated queries are executed under a base configuration and "
+              "random points of the grid partitions x batch_size x enable_hash_joins with rows spread over several INSERTs; all runs, and CREATE TABLE AS row counts/contents, must equal Sem."),
+        note=TB + "tables are written with at most batch_size rows per INSERT (larger stored chunks panic: known finding probed on every run); thread interleavings below poll granularity are C04/C16.",
+        technique="Lean proof (limit = exact slice for any batching) + configuration-grid differential against Sem",
+        design="5/C03"),
+    "C06": dict(
+        text=("Props/C06.lean: hash_eq_nl - a hash join that buckets the build side by an arbitrary hash function returns exactly the nested-loop join's pairs, for every hash function (collisions, constant "
+              "hashes), NULL keys never match (null_key_matches_nothing), and a LEFT join contains every probe row with unmatched ones exactly once (left_join_preserves). Tie: two key tables with controlled "
+              "duplicates/NULLs/empty sides joined with every kind (inner/left/right/cross/semi/anti) and condition shape under hash and nested-loop joins, small batch sizes and several partitions; all equal Sem.join."),
+        note=TB + "the theorems are about an abstract model of the algorithms (bucket = filter by hash), not a line-by-line model of hash_table/{mod,scan,drain}.rs; those are tied by the differential runs.",
+        technique="Lean proof (hash join = nested-loop join for all hash functions) + join differential against Sem",
+        design="5/C06"),
+    "C07": dict(
+        text=("Props/C07.lean: min/max update+merge are homomorphisms over any split of the input incl. partitions that saw no non-NULL row (max_split, min_split, by induction), the result of max is an "
+              "element of the input dominating all others (max_is_maximum); SUM homomorphism is in Props/C12. Tie: one table with 1-2200 distinct group keys (hash tables resize, keys recur after the resize), "
+              "0-100% NULL keys, all-negative/all-positive/mixed values, aggregated with count/sum/min/max/bool_and/bool_or (+DISTINCT), GROUP BY, ROLLUP/CUBE, SELECT DISTINCT, UNION under 1 and 2-16 partitions."),
+        note=TB + "FILTER is a known finding (ignored by the binder); float aggregates are not modelled; the hash-aggregate table itself is covered by the differential runs only.",
+        technique="Lean proof (aggregate states are homomorphisms over input splits) + aggregation differential against Sem",
+        design="5/C07"),
+    "C09": dict(
+        text=("Props/C09.lean: dependent_join_via_magic - evaluating a subquery once per distinct correlation value and joining back on that value equals nested evaluation per outer row, for duplicate and NULL "
+              "correlation values (the identity behind decorrelation), and EXISTS as a semi join. Tie: correlated EXISTS/NOT EXISTS/scalar aggregates/HAVING/two correlated columns/nesting depth 2 against Sem "
+              "(which evaluates per outer row); CTEs (plain, MATERIALIZED, 1-3 references) and views against the inlined body; five known findings are probed on their specific inputs."),
+        note=TB + "the theorem's join-back uses NULL-safe equality; the engine uses `=` (known finding F37); plan_subquery.rs itself is tied by the differential runs, not modelled rule by rule.",
+        technique="Lean proof (magic-set decorrelation identity) + correlated-subquery differential against nested evaluation (Sem)",
+        design="5/C09"),
 }
 
 NOT_YET = {
@@ -63,7 +107,7 @@ def main():
             "evidence_file": f"/verif/evidence/{pid}.json",
             "replay_cmd_template": "cat {path}",
             "engine": "lean4+gvh",
-            "level_claimed": {"category": c.get("category", "proof"), "text": c["text"], "design_ref": "DESIGN.md section " + c["design"]},
+            "level_claimed": {"category": "proof", "text": c["text"], "design_ref": "DESIGN.md section " + c["design"]},
             "level_note": c["note"],
             "technique": c["technique"],
         })
